@@ -12,9 +12,14 @@ def genFacts : Facts :=
     sharedObjectWrites := Generated.c20SharedObjectWrites
     argValFresh := Generated.c20ArgValFresh
     bbreprDef := Generated.c20BbreprDef
+    bbreprGuard := Generated.c20BbreprGuard
     glomScope := Generated.c20GlomScope
     glomScopeRoot := Generated.c20GlomScopeRoot
     childScope := Generated.c20ChildScope
-    registryEvalWrites := Generated.c20RegistryEvalWrites }
+    registryEvalWrites := Generated.c20RegistryEvalWrites
+    handlerKeys := Generated.c20HandlerKeys
+    parentLinkKeys := Generated.c20ParentLinkKeys
+    specGlomResets := Generated.c20SpecGlomResets
+    glomResets := Generated.c20GlomResets }
 
 end Glom.C20
